@@ -327,7 +327,7 @@ def fallthrough_keep_ok(ctx, f, lp, e, res, g) -> bool:
     return True
 
 
-@rule("C02.R2", ["C02"], min_instances=4, design="3.2")
+@rule("C02.R2", ["C02", "C06", "C07", "C01"], min_instances=4, design="3.2")
 def remove_row_conservation(ctx):
     """Each path through a rewrite-loop iteration of _remove_helper keeps or drops the row exactly once."""
     yield from _conservation(ctx, "TinyFlux._remove_helper", "C02.R2", ["C02"], {"KEEP", "DROP"})
@@ -406,7 +406,7 @@ def _remove_counters(ctx):
         elif pos is not None and any(isinstance(n, ast.Compare) and isinstance(n.ops[0], (ast.In, ast.NotIn))
                                      for n in walk_local(lp)):
             bad.append("index-path loop records no old->new position mapping")
-        yield Ob("C02.R2", ["C02", "C06"], f"TinyFlux._remove_helper | counters in loop over {norm(lp.iter)} "
+        yield Ob("C02.R2", ["C02", "C06", "C07", "C01"], f"TinyFlux._remove_helper | counters in loop over {norm(lp.iter)} "
                  f"#{rewrite_loops(ctx, f).index(lp) + 1}", not bad,
                  "; ".join(bad[:4]) if bad else f"{keep_cnt} counts exactly the kept rows; position/candidate "
                  f"counters advance on the right paths", ctx.prog.loc(lp))
@@ -419,6 +419,12 @@ def _update_counters(ctx):
     if not rets:
         raise AnalysisError("C03.R2", "_update_helper returns no counter variable")
     uc = rets[-1].value.id
+    # the local holding the updater closure (whatever it is called)
+    updn = "perform_update"
+    for n_ in walk_local(f.node):
+        if isinstance(n_, ast.Assign) and len(n_.targets) == 1 and isinstance(n_.targets[0], ast.Name) \
+                and isinstance(n_.value, ast.Call) and call_name(n_.value) == "_generate_updater":
+            updn = n_.targets[0].id
     for lp in rewrite_loops(ctx, f):
         subst = make_subst(f, scope=lp)
         pos, item = loop_vars(lp)
@@ -436,7 +442,7 @@ def _update_counters(ctx):
             want = 1 if kinds[0] == "REWRITE" else 0
             if incs.get(uc, 0) != want:
                 bad.append(f"{kinds[0]} path {_path_text(g, nodes)} increments {uc} {incs.get(uc, 0)} times")
-            called = any(isinstance(c, ast.Call) and isinstance(c.func, ast.Name) and c.func.id == "perform_update"
+            called = any(isinstance(c, ast.Call) and isinstance(c.func, ast.Name) and c.func.id == updn
                          for nid in nodes for c in g.nodes[nid].calls())
             if kinds[0] == "REWRITE" and not called:
                 bad.append(f"REWRITE path {_path_text(g, nodes)} never calls the updater")
@@ -453,12 +459,12 @@ def _update_counters(ctx):
                 if isinstance(a0, ast.List) and a0.elts and isinstance(a0.elts[0], ast.Call) \
                         and call_name(a0.elts[0]) == "_serialize_point":
                     cl = guard_clauses(guards(n, stop=lp), subst)
-                    if not any(len(c) == 1 and next(iter(c))[1] and "perform_update(" in next(iter(c))[0] for c in cl):
+                    if not any(len(c) == 1 and next(iter(c))[1] and f"{updn}(" in next(iter(c))[0] for c in cl):
                         bad_noop.append(f"re-serialised append at line {n.lineno} is not conditional on the updater "
                                         f"reporting a change: an update that changes nothing still rewrites storage")
         # the updater call itself: under filter and (update_all or query) / index membership
         for n in walk_local(lp):
-            if isinstance(n, ast.Call) and isinstance(n.func, ast.Name) and n.func.id == "perform_update":
+            if isinstance(n, ast.Call) and isinstance(n.func, ast.Name) and n.func.id == updn:
                 cl = guard_clauses(guards(n, stop=lp), subst)
                 arg_ok = n.args and isinstance(n.args[0], ast.Name) and all(
                     isinstance(v, ast.Call) and call_name(v) == "_deserialize_storage_item" and v.args
